@@ -6,7 +6,34 @@ import os
 V = os.path.dirname(os.path.dirname(os.path.abspath(__file__)))
 props = [json.loads(l) for l in open(os.path.join(V, 'properties.jsonl'))]
 
+CIRC_NOTE = ('Trusted: TLC/SANY + CommunityModules Json; the recorder harness/tracer.py (projection of real objects, copy-map from wrapped copy methods); '
+             'durations multiples of 1/4. Bounds: exhaustive for the small alphabets named in the evidence, TLC -simulate beyond. Known findings are matched by signature (KNOWN_FINDINGS.json).')
+CIRC_TECH = 'TLA+ spec Circuit.tla/Clauses.tla; TLC model check (MCCircuit) + TLC-generated programs (CircuitGen) replayed on the library + TLC trace validation (CircuitTrace)'
+
+
+def circ(text, ref):
+    return dict(text=text, ref=ref, note=CIRC_NOTE, technique=CIRC_TECH)
+
+
 CLAIMS = {
+    'C01': circ('Spec: relation equations, implicit rule (deepest matching node), frame rule, given-link rule as TLA+ clauses over the abstract heap. '
+                'TLC model-checks that the constructive semantics satisfies the clauses on all bounded programs, generates programs (exhaustive flat / nested / channel / '
+                'deep-reference alphabets, simulated long programs with overrides and registries) which run on the real library; every recorded observation is judged by TLC '
+                'against the equations using the specification\'s own links, on reported and on memo-free times.', '4 (C01)'),
+    'C02': circ('Listing clauses (complete by identity, attributes unchanged, contiguous blocks, causal w.r.t. specification links and w.r.t. reported relations, stable, add returns the listed object) '
+                'evaluated by TLC on every recorded observation of TLC-generated programs incl. branching relation graphs, nested blocks and relations to nested operations.', '4 (C02)'),
+    'C04': circ('Span clause (reported duration of every circuit and block = latest end - earliest start over its recorded contents; empty = 0) and the followers clause, '
+                'evaluated by TLC on every recorded observation; model-checked on the specification (NTimesT, SnapOK).', '4 (C04)'),
+    'C05': circ('Copy actions of the specification (CopyRecords/IsoUnder); for every copy made by nesting, explicit copy or unrolling the recorded copy map must be a bijection onto the new objects and every '
+                'copied object must report the attributes / repetition term / re-pointed relation of its source (all 26 operation classes enumerated from the code, every relation type and position); '
+                'later observations of original and copy are judged independently (independence).', '4 (C05)'),
+    'C06': circ('Unroll in the specification (UnrollBlock) with TLC-checked action properties (counts multiply, counts reset, idempotent, others untouched, n*T); on the real library the recorded '
+                'apply_modifiers events are checked for counts = product of enclosing counts, untouched originals, idempotence of a second application, reset counts, and the chain rule '
+                '(each copy starts at the latest end of the relation leaves of the copy before it) on memo-free times.', '4 (C06)'),
+    'C07': circ('Index clauses (circuit-level 0..N-1 and per-qubit 0..n_q-1 in listing order, filters by qubit and by tag, tags partition, export record order, monotone in time for implicit overlap-free programs) '
+                'evaluated by TLC on recorded observations of generated programs with measurements on interleaved qubits, tags, nested registries and unrolling, with and without earlier index reads.', '4 (C07)'),
+    'C11': circ('Flatten post-conditions (same leaf objects, no block left, in place, second flatten changes nothing) checked by TLC on recorded flatten events of generated nested programs and a directed family; '
+                'observations after flattening are judged by the listing / equation clauses.', '4 (C11)'),
     'C19': dict(
         text='TLC enumerates every pair/triple of channel identifiers, every pair of edges and every short sequence of the '
              'specification universe (Ident.tla, exhaustive) and checks the relational laws; the same universe is evaluated on the '
